@@ -676,6 +676,8 @@ def explore(cx, atom_eval, start=None, stop=()):
                     v = ev(n.ast.value, dict(envt))
                     if v is not None:
                         env[tg[0].id] = v
+                    elif isinstance(n.ast.value, (ast.Tuple, ast.List, ast.Dict, ast.Set, ast.JoinedStr)):
+                        env[tg[0].id] = 'SOME'          # a display: not None
                     elif isinstance(n.ast.value, ast.IfExp) and ev(n.ast.value.test, dict(envt)) is not None:
                         br = n.ast.value.body if ev(n.ast.value.test, dict(envt)) else n.ast.value.orelse
                         if isinstance(br, ast.Constant) and br.value is None:
